@@ -7,6 +7,7 @@
 import Std.Data.HashMap
 import CSD.Model.ChunkDec
 import CSD.Model.StatCoder
+import CSD.Model.DACImage
 import CSD.Driver.Check
 
 namespace CSD.Driver
@@ -170,6 +171,38 @@ def runChunkStream (c : Case) (emit : Nat → String → IO Unit) : IO Unit := d
     match op with
     | ["chchk", e0, texts, kk, cw, pos, ent, trees, runs, encs] => emit k (checkChunks e0 texts kk cw pos ent trees runs encs)
     | ["rdskip"] => emit k "V ok"
+    | _ => emit k "V unparsable-export"
+
+/-- The saved image of a real DAC_VLS and the fields of the object (`dimg`): the fields satisfy the
+hypotheses of `CSD.DACImg.loadImg_saveImg`, serialise to exactly the image, and the image parses back to them. -/
+def checkDacImg (img tam ll nl bb li lv rl bn bf bd br : String) : String :=
+  let nat (s : String) := s.toNat?.getD 0
+  let lst (s : String) : List Nat := (splitComma s).map nat
+  let bsImg : RG.Img := { n := nat bn, factor := nat bf, data := lst bd, Rs := lst br }
+  let d : DACImg.Img := {
+    tamCode := nat tam, listLength := nat ll, nLevels := nat nl, baseBits := nat bb,
+    levelsIndex := lst li, levels := lst lv, rankLevels := lst rl, bs := bsImg }
+  let w32 (l : List Nat) := l.all (· < 2 ^ 32)
+  -- the hypotheses `WF`
+  if !(d.levelsIndex.length == d.nLevels + 1 && d.levels.length == d.tamCode / 32 + 1 && d.rankLevels.length == d.nLevels) then
+    "V array-lengths-differ-from-what-load-recomputes" else
+  if !(d.bs.factor > 0 && d.bs.data.length == d.bs.n / 32 + 1 && d.bs.Rs.length == d.bs.n / (32 * d.bs.factor) + 1) then
+    "V bitmap-array-lengths-differ-from-what-load-recomputes" else
+  if !(w32 d.levelsIndex && w32 d.levels && w32 d.rankLevels && w32 d.bs.data && w32 d.bs.Rs && d.baseBits < 2 ^ 16) then
+    "V field-out-of-range" else
+  let bytes := unhex img
+  if DACImg.saveImg d != bytes then "V model-save-differs-from-the-image" else
+  match DACImg.loadImg (bytes ++ [0x55, 0xaa]) with
+  | some (d', [0x55, 0xaa]) => if d' == d then "V ok" else "V image-parses-to-different-fields"
+  | some _ => "V loader-does-not-consume-exactly-the-image"
+  | none => "V model-loader-refuses-the-image"
+
+def runDacImg (c : Case) (emit : Nat → String → IO Unit) : IO Unit := do
+  let mut k := 0
+  for op in c.ops do
+    k := k + 1
+    match op with
+    | ["dichk", img, tam, ll, nl, bb, li, lv, rl, bn, bf, bd, br] => emit k (checkDacImg img tam ll nl bb li lv rl bn bf bd br)
     | _ => emit k "V unparsable-export"
 
 /-- The size sweep (`sweep lo hi step`): the harness builds, saves, reloads and probes one dictionary per
